@@ -6,7 +6,7 @@ import sys
 sys.path.insert(0, os.path.dirname(os.path.abspath(__file__)))
 from units import UNITS
 
-HOOK_COMMITS = ["d84e864", "ee294ac", "ebadae1", "b32c974", "85cf3d4"]
+HOOK_COMMITS = ["d84e864", "ee294ac", "ebadae1", "b32c974", "85cf3d4", "1f5e2dd"]
 
 COMMON_NOTE = ("Trusted: Lean 4.33 kernel (axioms propext, Classical.choice, Quot.sound only; audited per theorem on every run), the hand-written "
                "Lean models (tied to /repo on every run by re-extracted tables + the differential correspondence harness), tools/*.py, harness/, "
